@@ -167,6 +167,11 @@ def misses_dropped(ctx):
         else:
             esc = ecfg.escapes(n)
             swallowed = bool(quiet) and len(quiet) == len(hs) and any(handler_covers(ecfg, h, 'Exception') for h in quiet)
+            if n.loop_stack and n.kind == 'stmt':
+                # inside the per-key loop the handler must be per key too (one failing child must not drop its siblings)
+                inner = [h for h in quiet if n.loop_stack[-1] in h.loop_stack]
+                ctx.ob(bool(inner), eu, 'a failing `%s` only skips that child (handler inside the loop)' % src(fall[0], 50),
+                       '' if inner else 'the only handler is outside the loop: one failing child drops all later siblings', node=fall[0])
             ctx.ob(swallowed and not esc, eu, 'any failure of `%s` is swallowed (the child is skipped)' % src(fall[0], 60),
                    '' if swallowed and not esc else 'may escape', node=fall[0])
     ctx.floor(12)
